@@ -120,4 +120,55 @@ func runLockWait(c *ctx) {
 		s.close()
 		_ = url.Values{}
 	}
+	runMixedCfg(c)
+}
+
+// "mixedcfg": replicas of one deployment that do not agree on session.inactivity (a flag being rolled out, an SSO proxy configured differently). A session
+// created with inactivity ON carries its timeout in the STORED metadata; once that has passed it is inactive for every replica that reads it, whatever the
+// reading replica's own setting: not accepted, no token forwarded, never refreshed. (The other direction - created without a timeout - has nothing to enforce.)
+func runMixedCfg(c *ctx) {
+	for _, handler := range []string{"proxy", "fwdauth", "refresh", "session"} {
+		for _, idle := range []time.Duration{12 * time.Minute, 31 * time.Minute} { // token expired but inside the timeout | past the timeout
+			o := sutOpts{tokenDuration: 10 * time.Minute, sidRequired: true, maxLifetime: 2 * time.Hour, forwardAuth: true, inactivity: 30 * time.Minute}
+			s := newSut(o)
+			login := s.replica("L")
+			base := "http://wonderwall"
+			b := newBrowser()
+			if _, err := s.login(b, login, base, ""); err != nil {
+				panic(err)
+			}
+			ticket := s.ticketOf(b)
+			s.o.inactivity = 0 // the reading replica has the feature switched off
+			rp := s.replica("OFF")
+			s.o.inactivity = 30 * time.Minute
+			s.lagNext = idle
+			s.shift(ticket, idle)
+			method, target := "GET", base+"/some/page"
+			switch handler {
+			case "refresh":
+				method, target = "POST", base+"/oauth2/session/refresh"
+			case "fwdauth":
+				target = base + "/oauth2/session/forwardauth"
+			case "session":
+				target = base + "/oauth2/session"
+			}
+			nUp, nCalls := s.upCount(), s.idp.callCount()
+			resp := b.do(rp, method, target, http.Header{"Sec-Fetch-Mode": {"navigate"}, "Sec-Fetch-Dest": {"document"}})
+			contacted := 0
+			for _, cl := range s.idp.callsSince(nCalls) {
+				if cl.Grant == "refresh_token" {
+					contacted++
+				}
+			}
+			upAuth := false
+			for _, u := range s.upSince(nUp) {
+				if strings.HasPrefix(u.Header.Get("Authorization"), "Bearer ") {
+					upAuth = true
+				}
+			}
+			c.count("mixedcfg:" + handler)
+			c.emit("mixedcfg", "handler", handler, "idlemin", int64(idle/time.Minute), "timeoutmin", 30, "status", resp.Status, "contacted", contacted, "upauth", upAuth)
+			s.close()
+		}
+	}
 }
